@@ -123,8 +123,23 @@ fn generalise(path_msg: &str) -> String {
     keep.join("/")
 }
 
+fn lib_writer<T: serde::Serialize>(v: &T, pretty: bool) -> Result<String, serde_json::Error> {
+    use in_toto::interchange::{DataInterchange, Json, JsonPretty};
+    let mut buf: Vec<u8> = vec![];
+    let r = if pretty { JsonPretty::to_writer(&mut buf, v) } else { Json::to_writer(&mut buf, v) };
+    match r {
+        Ok(()) => String::from_utf8(buf).map_err(|e| serde::ser::Error::custom(e.to_string())),
+        Err(e) => Err(serde::ser::Error::custom(e.to_string())),
+    }
+}
+
 fn roundtrip<T: serde::Serialize + serde::de::DeserializeOwned + PartialEq + std::fmt::Debug>(v: &T, what: &str, o: &mut Outcome) {
-    for (mode, ser) in [("compact", serde_json::to_string(v)), ("pretty", serde_json::to_string_pretty(v))] {
+    for (mode, ser) in [
+        ("compact", serde_json::to_string(v)),
+        ("pretty", serde_json::to_string_pretty(v)),
+        ("Json::to_writer", lib_writer(v, false)),
+        ("JsonPretty::to_writer", lib_writer(v, true)),
+    ] {
         let text = match ser {
             Ok(t) => t,
             Err(e) => {
@@ -145,7 +160,13 @@ fn roundtrip<T: serde::Serialize + serde::de::DeserializeOwned + PartialEq + std
                 o.fail(format!("C16/{}/value-changed", what), format!("{} round {}: {:?} became {:?}", mode, round, v, back), "equal value");
                 return;
             }
-            let again = if mode == "compact" { serde_json::to_string(&back) } else { serde_json::to_string_pretty(&back) }.expect("ser");
+            let again = match mode {
+                "compact" => serde_json::to_string(&back),
+                "pretty" => serde_json::to_string_pretty(&back),
+                "Json::to_writer" => lib_writer(&back, false),
+                _ => lib_writer(&back, true),
+            }
+            .expect("ser");
             if again != text {
                 o.fail(format!("C16/{}/reserialisation-not-byte-identical", what),
                     format!("{} round {}: {} vs {}", mode, round, text, again), "byte-identical JSON");
@@ -167,7 +188,7 @@ impl Property for C16 {
          thresholds 0..u32::MAX, empty and non-empty collections, environment None/empty/entries, byproducts with every subset of the \
          optional fields plus extra fields, all key types (a third of the layouts list one RSA key under both of its signature schemes - one material, two key ids - and an ECDSA key), 1-2 digest algorithms per artifact, Unicode text everywhere, whole-second \
          expiries in years 1970-9999); independently rendered wire documents (member order, whitespace, escape spelling, optional members \
-         absent, expiry spelled in another UTC offset). Oracle: parse(ser(v)) == v for compact and pretty; ser(parse(ser(v))) is \
+         absent, expiry spelled in another UTC offset). Oracle: parse(ser(v)) == v for serde_json compact and pretty and for the library's own writers Json::to_writer and JsonPretty::to_writer; ser(parse(ser(v))) is \
          byte-identical, repeated 8 times on freshly parsed instances (samples hash-map orders); for rendered documents that parse, every \
          member of D re-appears unchanged in ser(parse(D)) (expiry compared as an instant; defaults may be added). Non-trivial: the value \
          uses an optional/variant feature (MATCH prefix, extra byproduct field, >=2 digests, non-ASCII text, >=2 keys, environment); distinct by document."
